@@ -274,7 +274,7 @@ ChooseOp(doc, name) ==
 VarVals(op, given) ==
   [n \in {op.vars[i].n : i \in DOMAIN op.vars} |->
      LET vd == CHOOSE x \in Range(op.vars) : x.n = n
-     IN IF n \in DOMAIN given /\ given[n] # NullV THEN given[n]
+     IN IF n \in DOMAIN given THEN given[n]            \* (null is a value: the default is for a variable left out)
         ELSE IF vd.hasDef THEN vd.def ELSE NullV]
 
 \* C10: a document that applies an unknown or misplaced directive, gives a directive an unknown or
